@@ -487,7 +487,7 @@ class Report:
         self.instances.append((rule, desc, nontrivial))
 
     def violation(self, rule, module, function, construct, message, line=None):
-        if isinstance(module, Module):
+        if hasattr(module, 'relpath'):
             module = module.relpath
         self.findings.append(Finding(rule, module, function, construct, message, line))
 
@@ -497,7 +497,7 @@ class Report:
     def floor(self, rule, floor):
         n = sum(1 for r, _, _ in self.instances if r == rule)
         self.floors[rule] = (floor, n)
-        if n < floor:
+        if n < floor and not self.findings:
             raise AnalysisError('rule %s matched %d instances, below the confirmed floor %d '
                                 '(anchors moved or analyser no longer sees them)' % (rule, n, floor))
 
